@@ -420,13 +420,13 @@ PROPS["C23"] = dict(
     technique="property-based testing (rapid) of generated sentinel scenarios in a testing/synctest bubble against a wire-level fake Redis with a sentinel personality (per-sentinel views kept apart from the data nodes' true roles); oracle = per-node server log: ROLE answers per connection option set, sentinel replies and events received, destination of every uniquely keyed user command",
     level_text="1-3 sentinels with own (stale, wrong or lagging) views, 2-4 data nodes; histories of failovers (each sentinel learns at once, after n more answers or never, with or without +switch-master; promoted node still answering ROLE slave for 0-2 queries), failovers sprung right after a sentinel answered (role flip between the answer and the client's ROLE check), view changes, +sdown/-sdown/+slave/+reboot/+sentinel events, connection kills and refused dials; clients in primary, SendToReplicas and ReplicaOnly mode with traffic through every call type on and around the events. Every user command must be on a node that answered ROLE with the needed role on a connection of that option set and (primary) was named master by a sentinel before; after a received +switch-master and 5 s without change primary traffic must be on the announced master only, and final probes must reach it.",
     level_note="Scenarios are instantaneous in virtual time and staleness is counted in answers, not in time (the client holds a sync.Mutex across a refresh, which would freeze the virtual clock otherwise); one anchor sentinel always becomes truthful after at most 2 answers, because a refresh that cannot succeed is retried by the client in a hot loop. Events at the same virtual instant as a call are ties (accepted either way): the wrong-role clause judges calls that started strictly after the wrong answer. Connections are attributed to the client's master or replica option set through the *net.Dialer pointer given to DialCtxFn. A ReplicaOnly client keeps its replica after that node is promoted unless a replica event arrives (the property only demands the ROLE answer at selection). Arrival of final probes is demanded only for retried reads when data connections were cut. " + LIMITS,
-    units=[U("harness", "sentinel", "TestVerif_C23_FollowMaster", T(300, timeout=300), T(2500, shards=16, timeout=1500), variants=QUEUES)],
+    units=[U("harness", "sentinel", "TestVerif_C23_FollowMaster", T(600, timeout=300), T(2500, shards=16, timeout=1500), variants=QUEUES)],
 )
 
 # C21: the units below cover the standalone-with-replicas and the sentinel client; the cluster unit is added by its own entry
 _C21_SENTINEL_UNITS = [
-    U("harness", "sentinel", "TestVerif_C21_StandaloneReplicas", T(400, timeout=300), T(3000, shards=16, timeout=1500), variants=QUEUES),
-    U("harness", "sentinel", "TestVerif_C21_SentinelReplicas", T(400, timeout=300), T(3000, shards=16, timeout=1500), variants=QUEUES),
+    U("harness", "sentinel", "TestVerif_C21_StandaloneReplicas", T(600, timeout=300), T(3000, shards=16, timeout=1500), variants=QUEUES),
+    U("harness", "sentinel", "TestVerif_C21_SentinelReplicas", T(600, timeout=300), T(3000, shards=16, timeout=1500), variants=QUEUES),
 ]
 if "C21" in PROPS:
     PROPS["C21"]["units"] = PROPS["C21"]["units"] + _C21_SENTINEL_UNITS
